@@ -201,6 +201,101 @@ def Arr.view (a : Arr) (dt : DType) : Arr :=
   { dtype := dt,
     vals := if dt.kind == 'u' then a.vals.map (fun v => (GambitV.asUnsigned a.dtype.size v : Int)) else a.vals }
 
+/-- a collection of signatures as the distance functions see it: `kind` 0 = a plain Python sequence, 1 = a `SignatureList` or another
+`AbstractSignatureArray`, 2 = a `SignatureArray` (one packed values array + bounds) -/
+structure Sigs where
+  kind : Nat
+  dtype : DType
+  items : List (List Int)
+  deriving Repr, DecidableEq, Inhabited
+
+/-- the signatures as arrays (each in the collection's integer type) -/
+def Sigs.arrs (c : Sigs) : List Arr := c.items.map (fun v => { dtype := c.dtype, vals := v })
+
+/-- `SignatureArray.values`: the signatures concatenated -/
+def Sigs.values (c : Sigs) : Arr := { dtype := c.dtype, vals := c.items.flatten }
+
+/-- `SignatureArray.bounds`: cumulative lengths, starting at 0 -/
+def Sigs.boundsFrom (acc : Int) : List (List Int) → List Int
+  | [] => [acc]
+  | x :: xs => acc :: Sigs.boundsFrom (acc + x.length) xs
+def Sigs.bounds (c : Sigs) : List Int := Sigs.boundsFrom 0 c.items
+
+/-- `c[a:b]` / `c[[i, j, …]]`: the selected signatures as a collection of the same kind (a plain sequence cannot be indexed with a list:
+the distance functions wrap it in a `SignatureList` first); `none` = an index is out of range -/
+def Sigs.getSlice (c : Sigs) (a b : Int) : Sigs := { c with items := slice c.items (some a) (some b) }
+def Sigs.getIdx? (c : Sigs) (idx : List Int) : Option Sigs :=
+  (idx.mapM (fun i => getItem? c.items i)).map (fun it => { c with items := it })
+
+/-- an index into a collection: a slice object or a sequence of integers -/
+inductive Index
+  | slice (a b : Int)
+  | ints (l : List Int)
+  deriving Repr, DecidableEq, Inhabited
+
+def Sigs.get? (c : Sigs) : Index → Option Sigs
+  | .slice a b => some (c.getSlice a b)
+  | .ints l => c.getIdx? l
+
+/-- a NumPy array of distances, one- or two-dimensional (`shape = [n]`: `rows = [the n values]`; `shape = [r, c]`: `r` rows of `c` values);
+`okDtype` = its type is float32 -/
+structure ND where
+  okDtype : Bool
+  shape : List Nat
+  rows : List (List UInt32)
+  deriving Repr, DecidableEq, Inhabited
+
+/-- `np.empty(shape, SCORE_DTYPE)` (contents unspecified: zeros here; every cell is written before the array is returned) -/
+def ND.empty (shape : List Int) : ND :=
+  match shape with
+  | [n] => { okDtype := true, shape := [n.toNat], rows := [List.replicate n.toNat 0] }
+  | [r, c] => { okDtype := true, shape := [r.toNat, c.toNat], rows := List.replicate r.toNat (List.replicate c.toNat 0) }
+  | _ => { okDtype := true, shape := shape.map Int.toNat, rows := [] }
+
+/-- `out.shape != shape` -/
+def ND.shapeNe (a : ND) (shape : List Int) : Bool := a.shape.map (fun (n : Nat) => (n : Int)) != shape
+
+/-- the values of a one-dimensional array -/
+def ND.vals1 (a : ND) : List UInt32 := a.rows.headD []
+
+/-- `a[i] = v` on a one-dimensional array -/
+def ND.set1 (a : ND) (i : Int) (v : UInt32) : ND := { a with rows := [listSet a.vals1 i v] }
+
+/-- `xs[lo:hi] = vals` on a list (NumPy slice assignment of equally many values) -/
+def putSlice {α : Type} (xs : List α) (lo hi : Int) (vals : List α) : List α :=
+  let a := clampBound xs.length 0 (some lo)
+  xs.take a ++ vals ++ xs.drop (a + vals.length)
+
+/-- `a[lo:hi]` as a one-dimensional array (a view in NumPy: what is written into it is written back with `put1`) -/
+def ND.view1 (a : ND) (lo hi : Int) : ND :=
+  let v := slice a.vals1 (some lo) (some hi)
+  { okDtype := a.okDtype, shape := [v.length], rows := [v] }
+def ND.put1 (a : ND) (lo hi : Int) (src : ND) : ND := { a with rows := [putSlice a.vals1 lo hi src.vals1] }
+
+/-- `a[i, lo:hi]` of a two-dimensional array as a one-dimensional array, and writing it back -/
+def ND.rowView (a : ND) (i lo hi : Int) : ND :=
+  let v := slice ((getItem? a.rows i).getD []) (some lo) (some hi)
+  { okDtype := a.okDtype, shape := [v.length], rows := [v] }
+def ND.putRow (a : ND) (i lo hi : Int) (src : ND) : ND :=
+  { a with rows := listSet a.rows i (putSlice ((getItem? a.rows i).getD []) lo hi src.vals1) }
+
+/-- `a[lo:hi, i] = src` (a column segment) -/
+def ND.putCol (a : ND) (lo hi i : Int) (src : ND) : ND :=
+  let s := clampBound a.rows.length 0 (some lo)
+  { a with rows := a.rows.zipIdx.map (fun (ri : List UInt32 × Nat) =>
+      if s ≤ ri.2 ∧ ri.2 < s + src.vals1.length then listSet ri.1 i (src.vals1.getD (ri.2 - s) 0) else ri.1) }
+
+/-- `np.fill_diagonal(a, v)` on a two-dimensional array -/
+def ND.fillDiagonal (a : ND) (v : UInt32) : ND :=
+  { a with rows := a.rows.zipIdx.map (fun (ri : List UInt32 × Nat) => ri.1.set ri.2 v) }
+
+/-- `_jaccarddist_parallel(query, values, bounds, out)`: `out[i] = jaccarddist(query, values[bounds[i]:bounds[i+1]])` for every `i`
+(the `prange` loop of metric.pyx, tied by `Tie.Metric.structural_facts`: each iteration writes only its own cell) -/
+def parallelDists (query values : Arr) (bounds : List Int) (out : ND) : ND :=
+  let n := bounds.length - 1
+  { out with rows := [(List.range n).foldl (fun (o : List UInt32) i =>
+      o.set i (GambitV.jaccardBits query.natVals ((slice values.vals (some (bounds.getD i 0)) (some (bounds.getD (i + 1) 0))).map Int.toNat))) out.vals1] }
+
 /-- `gambit.classify.GenomeMatch` (reference genomes are indices into the list of genome taxa) -/
 structure GenomeMatch where
   genome : Nat
